@@ -47,6 +47,12 @@ func unionRules(c *Ctx) {
 		}
 	}
 	c.floor(R, 9, "six collections for Union, three for Add")
+	// the loops that consume the operands drop or skip an element only for a stated reason
+	// (already present *as the same kind of thing*: a root among the roots, a node among the nodes)
+	const RL = "loop-totality"
+	c.rule(RL, loopRuleText)
+	lds := pkgFilter(c.reachDecls(RL, "sbom.(*NodeList).Add", "sbom.(*NodeList).Union"), "sbom.(*NodeList).", "sbom.(*Edge).AddDestinationById")
+	c.loopTotality(RL, lds, loopPolicies, commonSkips)
 	normaliserRule(c, "sbom.(*NodeList).Union", false)
 	normaliserRule(c, "sbom.(*NodeList).Add", true)
 	lookupCriterionRule(c, "sbom.(*NodeList).GetEdgeByType")
